@@ -23,7 +23,7 @@ func init() {
 		Assumptions: []string{"Getw/Join widths restricted to {1,2,4,8,16,32,64} and Slice to 0<=from<=to<=64*len (the stated domain)",
 			"nothing asserted about capacity of returned slices"},
 		Flavours: releaseAnd386,
-		Required: []string{"long-run/calls>=100000-per-function", "arguments-in-read-only-memory", "join/w=1", "join/w=2", "join/w=4", "join/w=8", "join/w=16", "join/w=32", "join/w=64", "join/empty", "join/long-list",
+		Required: []string{"join/element-index*width>=2^31", "long-run/calls>=100000-per-function", "arguments-in-read-only-memory", "join/w=1", "join/w=2", "join/w=4", "join/w=8", "join/w=16", "join/w=32", "join/w=64", "join/empty", "join/long-list",
 			"slice/empty", "slice/aligned", "slice/unaligned", "slice/multiword", "slice/to-end", "slice/sub-word", "slice/bitmap>=2^31-bits"},
 		Families: func(c *mon.Config) []mon.Family {
 			reps := c.Pick(6, 1000)
@@ -38,6 +38,7 @@ func init() {
 				{Name: "slice-all", N: c.Pick(900, 150000), Run: c14SliceAll},
 				{Name: "slice-zoo", Env: 6, N: c.Pick(4000, 1000000), Run: c14SliceZoo},
 				{Name: "slice-huge-bitmap", N: 1, Run: c14SliceHuge},
+				{Name: "join-beyond-2^31-bits", NoCold: true, N: b2i(c.Base() != "386"), Run: c14JoinHuge},
 				{Name: "join-long", Env: 3, N: 7 * c.Pick(2, 100), Run: c14JoinLong},
 				lrFamily(c14LongRun),
 			}
@@ -413,4 +414,49 @@ func c14JoinLong(w *mon.W, idx int) {
 	w.Bucket("join/long-list")
 	w.Distinct(gen.Hash64(0x7019, uint64(width), uint64(n), vals[0]))
 	w.Sample(func() interface{} { return mon.D{"call": "Join+Getw, long list", "width": width, "n": n} })
+}
+
+// c14JoinHuge (round 12): value lists so long that element index x width passes 2^31 (2^25+ values of 64 bits, 2^26+ of
+// 32 bits: 256 MiB of values). Only a few values are non-zero; every element near the ends and around 2^31 bits is read back.
+func c14JoinHuge(w *mon.W, _ int) {
+	for _, c := range [][2]int{{64, 1<<25 + 10}, {32, 1<<26 + 11}, {16, 1<<27 + 3}} { // (never run in the 386 flavour)
+		width, n := int32(c[0]), c[1]
+		vals := make([]uint64, n)
+		marks := map[int]uint64{0: 0x1234567890abcdef, 5: ^uint64(0), n/2 - 1: 0x0f0f0f0f0f0f0f0f, n / 2: 0xdeadbeefcafef00d, n/2 + 1: 1, n - 3: 0x8000000000000001, n - 1: 0xffffffffffffffff}
+		lim := int((int64(1) << 31) / int64(width)) // the first element whose bit position is no int32
+		marks[lim-1], marks[lim], marks[lim+1] = 0xa5a5a5a5a5a5a5a5, 0x5a5a5a5a5a5a5a5a, 0x1111111111111111
+		for i, v := range marks {
+			vals[i] = v
+		}
+		w.Op, w.A, w.B = "Join(huge list)", int64(width), int64(n)
+		j := bitmap.Join(vals, width)
+		w.Tick()
+		if exp := (n*int(width) + 63) / 64; len(j) != exp {
+			w.Fail("Join/len", mon.D{"width": width, "n": n, "got_words": len(j), "expected_words": exp})
+			return
+		}
+		mask := ^uint64(0)
+		if width < 64 {
+			mask = 1<<uint(width) - 1
+		}
+		var probes []int
+		for i := range marks {
+			probes = append(probes, i-1, i, i+1)
+		}
+		for _, i := range probes {
+			if i < 0 || i >= n {
+				continue
+			}
+			w.Op, w.C = "Getw(huge list)", int64(i)
+			if g, e := bitmap.Getw(j, int32(i), width), vals[i]&mask; g != e {
+				w.Fail("Getw/element-index*width>=2^31", mon.D{"width": width, "n": n, "i": i, "got": fmt.Sprintf("%#x", g), "expected": fmt.Sprintf("%#x", e)})
+				return
+			}
+		}
+		w.Eval(int64(len(probes) + 1))
+		w.Tick()
+	}
+	w.Bucket("join/element-index*width>=2^31")
+	w.Distinct(gen.Hash64(0x2b14, 3))
+	w.Sample(func() interface{} { return mon.D{"lists": "2^25+10 x 64 bit, 2^26+11 x 32 bit, 2^27+3 x 16 bit"} })
 }
